@@ -96,3 +96,19 @@ Proof. exact MszipSafe.zframe_never_oob. Qed.
 Print Assumptions C02_mszip_frame_in_bounds.
 Example C02_mszip_ghost_checks_bite : Mszip.out_byte 65 (Mszip.upd_win Mszip.init Mszip.Emp Mszip.FRAME 0) = SRet (inl (Mszip.IErr Mszip.OOBZ)).
 Proof. exact MszipSafe.ghost_checks_bite. Qed.
+
+(* ---- the Quantum port (Model/Qtm.v, tied to qtmd.c by the decoder-level correspondence) with ghost bounds checks on the literal store
+        and on every match copy: the plain one, the one reaching back before the window start, both halves of the copy that wraps the
+        window end ---- *)
+From MSP Require Model.Qtm Proofs.QtmSafe Props.QtmSample.
+(* every sequence of qtmd_decompress calls from qtmd_init, every window size 2^10..2^21, every input: rests on window_posn <=
+   window_size, the bit buffer staying below 2^32 (so that READ_MANY_BITS(n) < 2^n) and the regenerated length tables (a match is
+   at most 1024 bytes long, the smallest window) *)
+Theorem C02_qtm_never_out_of_bounds : forall wb inp reqs sts out, 10 <= wb <= 21 ->
+  Qtm.qtm_run wb inp reqs = (sts, out) -> Forall (fun st => st <> Qtm.OOBQ) sts.
+Proof. exact QtmSafe.qtm_run_safe. Qed.
+Print Assumptions C02_qtm_never_out_of_bounds.
+Example C02_qtm_ghost_checks_bite :
+  fst (fst (Qtm.qtm_call QtmSafe.bad_qstate {| irest := QtmSample.q_stream ++ [0; 0]; iout := [] |} 100)) = Qtm.OOBQ /\
+  fst (Qtm.qtm_run 10 QtmSample.q_stream [100]) = [0].
+Proof. split; vm_compute; reflexivity. Qed.
